@@ -1568,6 +1568,17 @@ func (c *immuClient) VerifiedTxByID(ctx context.Context, tx uint64) (*schema.Tx,
 		targetAlh = schema.DigestFromProto(state.TxHash)
 	}
 
+	// returned tx (header and entries) must be the one covered by the proof
+	txAlh := targetAlh
+	if state.TxId > tx {
+		txAlh = sourceAlh
+	}
+
+	if int(vTx.Tx.Header.Nentries) != len(vTx.Tx.Entries) ||
+		schema.TxFromProto(vTx.Tx).Header().Alh() != txAlh {
+		return nil, store.ErrCorruptedData
+	}
+
 	if state.TxId > 0 {
 		err := c.verifyDualProof(
 			ctx,
